@@ -38,7 +38,16 @@ Verdict ==
                 ELSE {}))
     [] OTHER -> {}
 
-Report(v) == PrintT(<<"REJECT", l, Line.sid, Line.step, Line.ev, v, PropsOf(v)>>)
+\* where the observed value departs from the expected one (diagnostic text only)
+Why(v) ==
+  IF Line.ev = "Decode" /\ Line.obs.out = "ok" /\ "rt_val" \in v
+  THEN <<"rt">> \o DiffStruct(Line.ty, Line.obs.val, NormS(Line.ty, cur.vals[Line.orig + 1]))
+  ELSE IF Line.ev = "Decode" /\ Line.obs.out = "ok" /\ "dec_val" \in v
+  THEN <<"dec">> \o DiffStruct(Line.ty, Line.obs.val, Dec(Line.ty, Line.in, Line.dest).v)
+  ELSE <<>>
+
+Report(v) == PrintT(ToJson([tag |-> "REJECT", l |-> l, sid |-> Line.sid, step |-> Line.step, ev |-> Line.ev,
+                            clauses |-> v, props |-> PropsOf(v), why |-> Why(v)]))
 
 TraceScenario ==
   /\ IsEvent("Scenario")
@@ -68,6 +77,6 @@ TraceSpec == TraceInit /\ [][TraceNext]_traceVars
 \* every line was consumed
 TraceConsumed == TLCGet("stats").diameter - 1 = Len(Trace)
 \* printed at the end so that the orchestrator can cross-check its own count
-Summary == PrintT(<<"SUMMARY", Len(Trace), TLCGet("stats").diameter - 1>>)
+Summary == PrintT(ToJson([tag |-> "SUMMARY", lines |-> Len(Trace), consumed |-> TLCGet("stats").diameter - 1]))
 TraceAccepted == Summary /\ TraceConsumed
 =============================================================================
